@@ -148,6 +148,22 @@ def same_object_replay(src, seed, actions, modes):
     for i, (x, y) in enumerate(zip(first, second)):
         if x != y:
             return i
+    # the same (state, action, seed) gives the same result whatever the object did in between: step through
+    # the history keeping the states, reset, then repeat every recorded step as a generative step on the kept state
+    kept = []
+    env.reset()
+    for j, a in enumerate(actions[:40]):
+        st_ = env.current_state
+        np.random.seed(seed + j)
+        o, r, d, t, info = env.step(int(a % n))
+        kept.append((st_, int(a % n), env.current_state.tensor.tobytes(), float(r), bool(d), json.dumps(canon_info(info), sort_keys=True)))
+    env.reset()
+    # (latest states first: nothing the replay itself does can prepare the environment for them)
+    for j, (st_, a, nt, r, d, inf) in reversed(list(enumerate(kept))):
+        np.random.seed(seed + j)
+        ns, obs, r2, d2, info2 = env.generative_step(st_, a)
+        if (ns.tensor.tobytes(), float(r2), bool(d2), json.dumps(canon_info(info2), sort_keys=True)) != (nt, r, d, inf):
+            return f"{j} (replayed on the kept state after reset())"
     return None
 
 
@@ -164,7 +180,7 @@ def generator_object_reuse(params, expected):
             if scenario_fingerprint(scn) != expected:
                 return k + 1
             if k == 0:
-                other = dict(params, seed=(params.get("seed") or 0) + 1, num_hosts=params["num_hosts"] + 1)
+                other = dict(params, seed=((params.get("seed") or 0) + 1) % 2**32, num_hosts=params["num_hosts"] + 1)
                 other.pop("address_space_bounds", None)
                 guarded_generate(lambda: g.generate(**other))
     except BudgetExceeded:
